@@ -135,11 +135,10 @@ theorem dec_out_length : ∀ (b : BytesN) (a : Bool) (sg : Option BytesN) (cs : 
     simp only [dec] at h
     split_ifs at h with hp hx
     · obtain ⟨t, ht, rfl⟩ := Option.map_eq_some_iff.mp h
-      have := dec_out_length xs _ _ t ht
-      have := utf8enc_length_le x
+      have ih := dec_out_length xs _ _ t ht
       have hp' : printable x = true := by simpa using hp
       simp only [List.flatMap_cons, utf8enc_printable hp', List.length_append, List.length_cons,
-        List.length_nil, pendLen] at this ⊢
+        List.length_nil, pendLen] at ih ⊢
       omega
     · have := dec_out_length xs _ _ cs h
       simp only [pendLen, List.length_nil, List.length_cons] at this ⊢
@@ -187,7 +186,7 @@ theorem decT_eof_some (cap : Nat) : ∀ (src : BytesN) (a : Bool) (sg : Option B
         not_false_eq_true, if_true]
       rw [if_neg (by omega), ih]
       simp only [TRes.mk.injEq, pendLen, List.append_assoc, and_true, true_and]
-      refine ⟨by omega, by omega, by simp⟩
+      and_intros <;> first | omega | simp
     · have hx' : x = 38 := by
         by_cases h38 : x = 38
         · exact h38
@@ -220,7 +219,7 @@ theorem decT_eof_some (cap : Nat) : ∀ (src : BytesN) (a : Bool) (sg : Option B
           rw [if_neg (by omega), ih]
           simp only [TRes.mk.injEq, pendLen, List.length_nil, List.append_assoc, and_true,
             true_and]
-          refine ⟨by omega, by omega, by simp⟩
+          and_intros <;> first | omega | simp
         · subst ha
           have hemp : acc.isEmpty = false := by cases acc <;> simp_all
           rw [hemp] at ht
@@ -230,7 +229,7 @@ theorem decT_eof_some (cap : Nat) : ∀ (src : BytesN) (a : Bool) (sg : Option B
           rw [if_neg (by omega), ih]
           simp only [TRes.mk.injEq, pendLen, List.length_cons, List.append_assoc, and_true,
             true_and]
-          refine ⟨by omega, by omega⟩
+          and_intros <;> first | omega | simp
     · have ih := decT_eof_some cap xs a (some (acc ++ [x])) nDst nSrc out cs h hcap
       simp only [decT, h45, hcr, if_false]
       rw [ih]
